@@ -52,7 +52,8 @@ type c38Case struct {
 	Group  string     `json:"group"`
 	Idx    int        `json:"idx"`
 	Kind   string     `json:"kind"`  // hs | cmd
-	User   string     `json:"user"`  // cmd: which user logs in (ns1_rw / ns2_rw keep-session namespace)
+	User   string     `json:"user"`  // cmd: which user logs in (ns1_rw / ns2_rw keep-session namespace / ns3_rw small max_client_connections)
+	DB     string     `json:"db,omitempty"` // cmd: database named in the (well-formed) handshake; "" = db, "<none>" = none
 	Setup  string     `json:"setup"` // "", prep (4 statements), prep1 (statement 0 only), tx, tx+prep, noac
 	Frames []c38Frame `json:"frames"`
 }
@@ -482,6 +483,53 @@ func c38GenCommands(seed uint64) map[string][]c38Case {
 		fr = append(fr, c38Cmd("cmd/prepare", mycli.ComStmtPrepare, []byte(q)))
 	}
 	pack("cmd/prepare", "ns1_rw", "", 5, fr)
+
+	// ---- sessions whose current database is odd (the handshake's database name is taken unchecked),
+	// and sessions after a failed COM_INIT_DB: then every command
+	{
+		var odd []c38Frame
+		odd = append(odd, c38Cmd("cmd/odddb/fieldlist", mycli.ComFieldList, []byte("t1\x00")), c38Cmd("cmd/odddb/fieldlist", mycli.ComFieldList, []byte("tbl_shard\x00%")),
+			c38Cmd("cmd/odddb/query", mycli.ComQuery, []byte("select * from tbl_shard where id = 1")), c38Cmd("cmd/odddb/query", mycli.ComQuery, []byte("select * from t2")),
+			c38Cmd("cmd/odddb/query", mycli.ComQuery, []byte("insert into tbl_shard (id, a) values (1, 2), (2, 3)")), c38Cmd("cmd/odddb/query", mycli.ComQuery, []byte("select database()")),
+			c38Cmd("cmd/odddb/query", mycli.ComQuery, []byte("show tables")), c38Cmd("cmd/odddb/query", mycli.ComQuery, []byte("begin")), c38Cmd("cmd/odddb/query", mycli.ComQuery, []byte("update t2 set a = 1")),
+			c38Cmd("cmd/odddb/fieldlist-in-tx", mycli.ComFieldList, []byte("t2\x00")), c38Cmd("cmd/odddb/query", mycli.ComQuery, []byte("commit")),
+			c38Cmd("cmd/odddb/initdb-fails", mycli.ComInitDB, []byte("no_such_db_2")), c38Cmd("cmd/odddb/fieldlist-after-failed-initdb", mycli.ComFieldList, []byte("t2\x00")),
+			c38Cmd("cmd/odddb/prepare", mycli.ComStmtPrepare, []byte("select * from t2 where id = ?")),
+			c38Cmd("cmd/odddb/execute", mycli.ComStmtExecute, c38ExecPayload(0, 0, 1, []byte{0}, 1, []byte{mycli.TLongLong, 0}, []byte{1, 0, 0, 0, 0, 0, 0, 0})),
+			c38Cmd("cmd/odddb/ping", mycli.ComPing, nil), c38Cmd("cmd/odddb/fieldlist", mycli.ComFieldList, []byte("db.t2\x00")), c38Cmd("cmd/odddb/fieldlist-nonul", mycli.ComFieldList, []byte("t2")),
+			c38Cmd("cmd/odddb/initdb", mycli.ComInitDB, []byte("db")), c38Cmd("cmd/odddb/fieldlist-after-initdb", mycli.ComFieldList, []byte("t2\x00")))
+		for _, user := range []string{"ns1_rw", "ns2_rw"} {
+			for _, db := range []string{"no_such_db", "<none>", "DB", "information_schema", "db ", "`db`", "db.t2", strings.Repeat("d", 300), "\xff\xfe", "db;"} {
+				for i := 0; i < len(odd); i += 10 {
+					j := i + 10
+					if j > len(odd) {
+						j = len(odd)
+					}
+					out["cmd/odddb"] = append(out["cmd/odddb"], c38Case{Group: "cmd/odddb", Idx: len(out["cmd/odddb"]), Kind: "cmd", User: user, DB: db, Frames: odd[i:j]})
+				}
+			}
+		}
+		// a valid login followed by a failed COM_INIT_DB, then the same commands
+		pack("cmd/after-failed-initdb", "ns1_rw", "", 10, append([]c38Frame{c38Cmd("cmd/odddb/initdb-fails", mycli.ComInitDB, []byte("no_such_db"))}, odd...))
+	}
+
+	// ---- inputs that end the session through a recovered panic, in bulk, against the namespace
+	// with max_client_connections = 8: one frame per connection, several times the limit
+	{
+		dateLie := c38ExecPayload(0, 0, 1, []byte{0}, 1, []byte{mycli.TDate, 0}, []byte{11, 1, 2})
+		var bulk []c38Frame
+		for i := 0; i < 3*c38SmallMaxConns+2; i++ {
+			switch i % 3 {
+			case 0:
+				bulk = append(bulk, c38Frame{Class: "cmd/bulk/empty-frame", Seq: 0, HdrLen: -1})
+			case 1:
+				bulk = append(bulk, c38Cmd("cmd/bulk/fieldlist-nonul", mycli.ComFieldList, []byte("tbl_shard")))
+			case 2:
+				bulk = append(bulk, c38Cmd("cmd/bulk/exec-date-lie", mycli.ComStmtExecute, dateLie))
+			}
+		}
+		pack("cmd/bulk-small-maxconn", "ns3_rw", "prep1", 1, bulk)
+	}
 
 	// ---- the unit alphabet of SQL lexemes in every position, for COM_STMT_PREPARE and COM_QUERY
 	for _, lx := range []struct {
